@@ -245,3 +245,275 @@ Proof. unfold has_block. destruct (find_block (g_blocks g) i); [eauto | discrimi
 
 Lemma in_has_block g b : sorted_by b_index (g_blocks g) = true -> In b (g_blocks g) -> has_block g (b_index b) = true.
 Proof. intros Hs Hb. unfold has_block. rewrite (find_block_in _ _ Hs Hb). reflexivity. Qed.
+
+(* ------------------------------------------------------------------ the two scans *)
+Lemma fwd_scan_split f bi pre x post :
+  (forall z, In z pre -> i_index z <> i_index x) ->
+  instr_forward_scan f bi (pre ++ x :: post) (i_index x) =
+  match post with
+  | y :: _ => Ok [LInstr bi (i_index y)]
+  | [] => es <- cfg_edges_out (f_cfg f) bi ;; Ok (edge_locs es)
+  end.
+Proof.
+  induction pre as [|y t IH]; intros Hpre; cbn [app instr_forward_scan].
+  - rewrite Z.eqb_refl. reflexivity.
+  - destruct (i_index y =? i_index x) eqn:E.
+    + apply Z.eqb_eq in E. exfalso. apply (Hpre y); [left; reflexivity | exact E].
+    + apply IH. intros z Hz. apply Hpre. right; exact Hz.
+Qed.
+
+Lemma bwd_scan_split f bi rpost x rpre :
+  (forall z, In z rpost -> i_index z <> i_index x) ->
+  instr_backward_scan f bi (rpost ++ x :: rpre) (i_index x) =
+  match rpre with
+  | y :: _ => Ok [LInstr bi (i_index y)]
+  | [] => es <- cfg_edges_in (f_cfg f) bi ;; Ok (edge_locs es)
+  end.
+Proof.
+  induction rpost as [|y t IH]; intros Hpost; cbn [app instr_backward_scan].
+  - rewrite Z.eqb_refl. reflexivity.
+  - destruct (i_index y =? i_index x) eqn:E.
+    + apply Z.eqb_eq in E. exfalso. apply (Hpost y); [left; reflexivity | exact E].
+    + apply IH. intros z Hz. apply Hpost. right; exact Hz.
+Qed.
+
+Lemma in_edge_locs l es : In l (edge_locs es) <-> exists e, In e es /\ l = LEdge (e_head e) (e_tail e).
+Proof.
+  unfold edge_locs. rewrite in_map_iff. split; intros (e & H1 & H2); exists e; auto.
+Qed.
+
+Lemma block_last_loc_app b pre x : b_instrs b = pre ++ [x] -> block_last_loc b = LInstr (b_index b) (i_index x).
+Proof. intros H. unfold block_last_loc. rewrite H, rev_app_distr. reflexivity. Qed.
+
+Lemma block_last_loc_nil b : b_instrs b = [] -> block_last_loc b = LEmpty (b_index b).
+Proof. intros H. unfold block_last_loc. rewrite H. reflexivity. Qed.
+
+Lemma block_last_loc_cases b :
+  (b_instrs b = [] /\ block_last_loc b = LEmpty (b_index b)) \/
+  (exists pre x, b_instrs b = pre ++ [x] /\ block_last_loc b = LInstr (b_index b) (i_index x)).
+Proof.
+  destruct (b_instrs b) as [|a t] eqn:E using rev_ind.
+  - left. split; [reflexivity | apply block_last_loc_nil; exact E].
+  - right. exists t, a. split; [reflexivity | eapply block_last_loc_app; exact E].
+Qed.
+
+Lemma block_first_loc_cases b :
+  (b_instrs b = [] /\ block_first_loc b = LEmpty (b_index b)) \/
+  (exists x post, b_instrs b = x :: post /\ block_first_loc b = LInstr (b_index b) (i_index x)).
+Proof.
+  unfold block_first_loc. destruct (b_instrs b) as [|x t].
+  - left; auto.
+  - right; exists x, t; auto.
+Qed.
+
+(* ------------------------------------------------------------------ forward / backward = step *)
+Section WithFunc.
+  Variable f : func.
+  Hypothesis Hinv : cfg_inv (f_cfg f) = true.
+  Let W : cfg_wf (f_cfg f) := cfg_inv_wf _ Hinv.
+
+  Lemma fb_in b : In b (f_blocks f) -> find_block (f_blocks f) (b_index b) = Some b.
+  Proof. apply find_block_in. exact (wf_blocks _ W). Qed.
+
+  Lemma edges_out_ok bi : has_block (f_cfg f) bi = true ->
+    cfg_edges_out (f_cfg f) bi = Ok (filter (fun e => e_head e =? bi) (g_edges (f_cfg f))).
+  Proof. intros H. unfold cfg_edges_out. rewrite H. reflexivity. Qed.
+  Lemma edges_in_ok bi : has_block (f_cfg f) bi = true ->
+    cfg_edges_in (f_cfg f) bi = Ok (filter (fun e => e_tail e =? bi) (g_edges (f_cfg f))).
+  Proof. intros H. unfold cfg_edges_in. rewrite H. reflexivity. Qed.
+
+  Lemma hb_in b : In b (f_blocks f) -> has_block (f_cfg f) (b_index b) = true.
+  Proof. intros H. unfold has_block. fold (f_blocks f). rewrite (fb_in _ H). reflexivity. Qed.
+
+  (* out-edge locations of a block *)
+  Lemma out_locs b l : In b (f_blocks f) ->
+    ((exists ls, (es <- cfg_edges_out (f_cfg f) (b_index b) ;; Ok (edge_locs es)) = Ok ls /\ In l ls)
+     <-> exists e, In e (f_edges f) /\ e_head e = b_index b /\ l = LEdge (e_head e) (e_tail e)).
+  Proof.
+    intros Hb. rewrite (edges_out_ok _ (hb_in _ Hb)). cbn [bind]. split.
+    - intros (ls & [= <-] & Hl). apply in_edge_locs in Hl as (e & He & ->).
+      apply filter_In in He as [He1 He2]. apply Z.eqb_eq in He2. exists e; auto.
+    - intros (e & He & Hh & ->). eexists; split; [reflexivity|]. apply in_edge_locs. exists e; split; auto.
+      apply filter_In. split; [exact He | apply Z.eqb_eq; exact Hh].
+  Qed.
+  Lemma in_locs b l : In b (f_blocks f) ->
+    ((exists ls, (es <- cfg_edges_in (f_cfg f) (b_index b) ;; Ok (edge_locs es)) = Ok ls /\ In l ls)
+     <-> exists e, In e (f_edges f) /\ e_tail e = b_index b /\ l = LEdge (e_head e) (e_tail e)).
+  Proof.
+    intros Hb. rewrite (edges_in_ok _ (hb_in _ Hb)). cbn [bind]. split.
+    - intros (ls & [= <-] & Hl). apply in_edge_locs in Hl as (e & He & ->).
+      apply filter_In in He as [He1 He2]. apply Z.eqb_eq in He2. exists e; auto.
+    - intros (e & He & Hh & ->). eexists; split; [reflexivity|]. apply in_edge_locs. exists e; split; auto.
+      apply filter_In. split; [exact He | apply Z.eqb_eq; exact Hh].
+  Qed.
+
+  Lemma split_nodup b pre x post : In b (f_blocks f) -> b_instrs b = pre ++ x :: post ->
+    (forall z, In z pre -> i_index z <> i_index x) /\ (forall z, In z post -> i_index z <> i_index x).
+  Proof.
+    intros Hb E. apply nodup_app_cons_l. rewrite <- E. exact (wf_instrs _ W b Hb).
+  Qed.
+
+  (* forward of an instruction location, given its position *)
+  Lemma forward_instr b pre x post : In b (f_blocks f) -> b_instrs b = pre ++ x :: post ->
+    forward f (LInstr (b_index b) (i_index x)) =
+    match post with
+    | y :: _ => Ok [LInstr (b_index b) (i_index y)]
+    | [] => es <- cfg_edges_out (f_cfg f) (b_index b) ;; Ok (edge_locs es)
+    end.
+  Proof.
+    intros Hb E. cbn [forward]. rewrite (fb_in _ Hb), E.
+    apply fwd_scan_split. exact (proj1 (split_nodup _ _ _ _ Hb E)).
+  Qed.
+  Lemma backward_instr b pre x post : In b (f_blocks f) -> b_instrs b = pre ++ x :: post ->
+    backward f (LInstr (b_index b) (i_index x)) =
+    match rev pre with
+    | y :: _ => Ok [LInstr (b_index b) (i_index y)]
+    | [] => es <- cfg_edges_in (f_cfg f) (b_index b) ;; Ok (edge_locs es)
+    end.
+  Proof.
+    intros Hb E. cbn [backward]. rewrite (fb_in _ Hb), E.
+    rewrite rev_app_distr. cbn [rev]. rewrite <- app_assoc. cbn [app].
+    apply bwd_scan_split. intros z Hz. apply in_rev in Hz.
+    exact (proj2 (split_nodup _ _ _ _ Hb E) z Hz).
+  Qed.
+
+  Lemma valid_instr bi ii : valid_loc f (LInstr bi ii) = true ->
+    exists b pre x post, In b (f_blocks f) /\ b_index b = bi /\ i_index x = ii /\ b_instrs b = pre ++ x :: post.
+  Proof.
+    cbn [valid_loc]. destruct (find_block (f_blocks f) bi) as [b|] eqn:Eb; [|discriminate].
+    unfold block_instruction. destruct (find_instr (b_instrs b) ii) as [x|] eqn:Ex; [|discriminate].
+    intros _. apply find_block_some in Eb as [Hb Hi].
+    apply find_instr_split in Ex as (pre & post & E & Hx & _).
+    exists b, pre, x, post. auto.
+  Qed.
+  Lemma valid_edge h t : valid_loc f (LEdge h t) = true ->
+    exists e, In e (f_edges f) /\ e_head e = h /\ e_tail e = t.
+  Proof.
+    cbn [valid_loc]. destruct (find_edge (f_edges f) h t) as [e|] eqn:Ee; [|discriminate].
+    intros _. apply find_edge_some in Ee. exists e. exact Ee.
+  Qed.
+  Lemma valid_empty bi : valid_loc f (LEmpty bi) = true ->
+    exists b, In b (f_blocks f) /\ b_index b = bi /\ b_instrs b = [].
+  Proof.
+    cbn [valid_loc]. destruct (find_block (f_blocks f) bi) as [b|] eqn:Eb; [|discriminate].
+    unfold block_is_empty. destruct (b_instrs b) eqn:E; [|discriminate].
+    intros _. apply find_block_some in Eb as [Hb Hi]. exists b; auto.
+  Qed.
+
+  Lemma edge_ends e : In e (f_edges f) ->
+    (exists b, In b (f_blocks f) /\ b_index b = e_head e) /\ (exists b, In b (f_blocks f) /\ b_index b = e_tail e).
+  Proof.
+    intros He. destruct (wf_ends _ W e He) as [H1 H2].
+    apply has_block_find in H1 as [b1 H1]. apply has_block_find in H2 as [b2 H2].
+    apply find_block_some in H1, H2. split; [exists b1 | exists b2]; exact H1 || exact H2.
+  Qed.
+
+  (* uniqueness of blocks by index *)
+  Lemma block_uniq b b' : In b (f_blocks f) -> In b' (f_blocks f) -> b_index b = b_index b' -> b = b'.
+  Proof.
+    intros H H' E. pose proof (fb_in _ H) as F. rewrite E, (fb_in _ H') in F. congruence.
+  Qed.
+
+  Lemma forward_edge e b : In e (f_edges f) -> In b (f_blocks f) -> e_tail e = b_index b ->
+    forward f (LEdge (e_head e) (e_tail e)) = Ok [block_first_loc b].
+  Proof.
+    intros He Hb E. cbn [forward]. unfold f_block, cfg_block. fold (f_blocks f).
+    rewrite E, (fb_in _ Hb). reflexivity.
+  Qed.
+  Lemma backward_edge e b : In e (f_edges f) -> In b (f_blocks f) -> e_head e = b_index b ->
+    backward f (LEdge (e_head e) (e_tail e)) = Ok [block_last_loc b].
+  Proof.
+    intros He Hb E. cbn [backward]. unfold f_block, cfg_block. fold (f_blocks f).
+    rewrite E, (fb_in _ Hb). reflexivity.
+  Qed.
+  Lemma forward_empty b : In b (f_blocks f) ->
+    forward f (LEmpty (b_index b)) = (es <- cfg_edges_out (f_cfg f) (b_index b) ;; Ok (edge_locs es)).
+  Proof. reflexivity. Qed.
+  Lemma backward_empty b : In b (f_blocks f) ->
+    backward f (LEmpty (b_index b)) = (es <- cfg_edges_in (f_cfg f) (b_index b) ;; Ok (edge_locs es)).
+  Proof. reflexivity. Qed.
+
+  Lemma forward_last b : In b (f_blocks f) ->
+    forward f (block_last_loc b) = (es <- cfg_edges_out (f_cfg f) (b_index b) ;; Ok (edge_locs es)).
+  Proof.
+    intros Hb. destruct (block_last_loc_cases b) as [[E ->]|(pre & x & E & ->)].
+    - reflexivity.
+    - rewrite (forward_instr b pre x [] Hb E). reflexivity.
+  Qed.
+  Lemma backward_first b : In b (f_blocks f) ->
+    backward f (block_first_loc b) = (es <- cfg_edges_in (f_cfg f) (b_index b) ;; Ok (edge_locs es)).
+  Proof.
+    intros Hb. destruct (block_first_loc_cases b) as [[E ->]|(x & post & E & ->)].
+    - reflexivity.
+    - rewrite (backward_instr b [] x post Hb E). reflexivity.
+  Qed.
+
+  Theorem forward_spec a b : valid_loc f a = true ->
+    ((exists l, forward f a = Ok l /\ In b l) <-> step f a b).
+  Proof.
+    intros Hv. split.
+    - intros (l & Hf & Hb). destruct a as [bi ii|h t|bi].
+      + apply valid_instr in Hv as (blk & pre & x & post & Hblk & <- & <- & E).
+        rewrite (forward_instr _ _ _ _ Hblk E) in Hf. destruct post as [|y post].
+        * assert (Ho : exists ls, (es <- cfg_edges_out (f_cfg f) (b_index blk);; Ok (edge_locs es)) = Ok ls /\ In b ls) by eauto.
+          apply (out_locs blk b Hblk) in Ho as (e & He & Hh & ->).
+          rewrite <- (block_last_loc_app blk pre x E). apply st_out; assumption.
+        * injection Hf as <-. destruct Hb as [<-|[]]. eapply st_next; eassumption.
+      + apply valid_edge in Hv as (e & He & <- & <-).
+        destruct (edge_ends e He) as [_ (blk & Hblk & Et)].
+        rewrite (forward_edge e blk He Hblk (eq_sym Et)) in Hf. injection Hf as <-.
+        destruct Hb as [<-|[]]. apply st_in; auto.
+      + apply valid_empty in Hv as (blk & Hblk & <- & E).
+        rewrite forward_empty in Hf by exact Hblk.
+        assert (Ho : exists ls, (es <- cfg_edges_out (f_cfg f) (b_index blk);; Ok (edge_locs es)) = Ok ls /\ In b ls) by eauto.
+        apply (out_locs blk b Hblk) in Ho as (e & He & Hh & ->).
+        rewrite <- (block_last_loc_nil blk E). apply st_out; assumption.
+    - intros Hs. destruct Hs as [blk pre x y post Hblk E | blk e Hblk He Hh | blk e Hblk He Ht].
+      + rewrite (forward_instr _ _ _ _ Hblk E). eexists; split; [reflexivity | left; reflexivity].
+      + rewrite (forward_last _ Hblk). apply (out_locs blk _ Hblk). exists e; auto.
+      + rewrite (forward_edge e blk He Hblk Ht). eexists; split; [reflexivity | left; reflexivity].
+  Qed.
+
+  Theorem backward_spec a b : valid_loc f b = true ->
+    ((exists l, backward f b = Ok l /\ In a l) <-> step f a b).
+  Proof.
+    intros Hv. split.
+    - intros (l & Hf & Ha). destruct b as [bi ii|h t|bi].
+      + apply valid_instr in Hv as (blk & pre & x & post & Hblk & <- & <- & E).
+        rewrite (backward_instr _ _ _ _ Hblk E) in Hf.
+        destruct pre as [|p pre'] using rev_ind.
+        * cbn [rev] in Hf.
+          assert (Ho : exists ls, (es <- cfg_edges_in (f_cfg f) (b_index blk);; Ok (edge_locs es)) = Ok ls /\ In a ls) by eauto.
+          apply (in_locs blk a Hblk) in Ho as (e & He & Hh & ->).
+          replace (LInstr (b_index blk) (i_index x)) with (block_first_loc blk)
+            by (unfold block_first_loc; rewrite E; reflexivity).
+          apply st_in; assumption.
+        * clear IHpre'. rewrite rev_app_distr in Hf. cbn [rev app] in Hf. injection Hf as <-.
+          destruct Ha as [<-|[]]. rewrite <- app_assoc in E. cbn [app] in E.
+          eapply st_next; eassumption.
+      + apply valid_edge in Hv as (e & He & <- & <-).
+        destruct (edge_ends e He) as [(blk & Hblk & Eh) _].
+        rewrite (backward_edge e blk He Hblk (eq_sym Eh)) in Hf. injection Hf as <-.
+        destruct Ha as [<-|[]]. apply st_out; auto.
+      + apply valid_empty in Hv as (blk & Hblk & <- & E).
+        rewrite backward_empty in Hf by exact Hblk.
+        assert (Ho : exists ls, (es <- cfg_edges_in (f_cfg f) (b_index blk);; Ok (edge_locs es)) = Ok ls /\ In a ls) by eauto.
+        apply (in_locs blk a Hblk) in Ho as (e & He & Hh & ->).
+        replace (LEmpty (b_index blk)) with (block_first_loc blk)
+          by (unfold block_first_loc; rewrite E; reflexivity).
+        apply st_in; assumption.
+    - intros Hs. destruct Hs as [blk pre x y post Hblk E | blk e Hblk He Hh | blk e Hblk He Ht].
+      + assert (E' : b_instrs blk = (pre ++ [x]) ++ y :: post) by (rewrite <- app_assoc; exact E).
+        rewrite (backward_instr _ _ _ _ Hblk E'). rewrite rev_app_distr. cbn [rev app].
+        eexists; split; [reflexivity | left; reflexivity].
+      + rewrite (backward_edge e blk He Hblk Hh). eexists; split; [reflexivity | left; reflexivity].
+      + rewrite (backward_first _ Hblk). apply (in_locs blk _ Hblk). exists e; auto.
+  Qed.
+
+  (* C18, clause 1 *)
+  Theorem fwd_bwd_converse a b : valid_loc f a = true -> valid_loc f b = true ->
+    ((exists l, forward f a = Ok l /\ In b l) <-> (exists l, backward f b = Ok l /\ In a l)).
+  Proof.
+    intros Ha Hb. rewrite (forward_spec a b Ha), (backward_spec a b Hb). reflexivity.
+  Qed.
+End WithFunc.
